@@ -459,6 +459,112 @@ def c19(out):
     out.add("states", out.cov.get("trace_states", 0))
 
 
+@prop("C12")
+def c12(out):
+    def nt(r):
+        ch = [o for o in r["ops"] if o[0] != 0]
+        n = r["n"]
+        return len(ch) >= 2 and any(o[0] == 0 and o[2] in (n, 2 * n, 2 * n + 1) for o in r["ops"])
+    calls_family(out, "c12", {"grouping", "panic"}, nt,
+                 "group_diff_ops on every alternating op list with <=5 ops (6 thorough), run lengths from {1,n,n+1,2n,2n+1,2n+2}, "
+                 "radius 0..3, leading/trailing change or Equal, all change kinds, plus random longer lists and real diffs; the "
+                 "returned groups are compared by TLC with Grouping!Expected, a declarative construction from the statement "
+                 "(partition of the changes at gaps > 2n, min(n, L) context); non-trivial = >=2 changes and an Equal run of length "
+                 "n, 2n or 2n+1", sample_keys=("ops", "n", "groups"))
+
+
+@prop("C13")
+def c13(out):
+    def nt(r):
+        if r["ev"] == "expand1":
+            o = r["op"]
+            return o[1] != o[3] and o[2] != o[4] and o[2] + o[4] > 0
+        return len(r["ops"]) >= 3
+    calls_family(out, "c13", {"changes", "slices", "reapply", "concat", "panic"}, nt,
+                 "DiffOp::iter_changes / iter_slices / apply_to_hook on single ops of all four kinds with arbitrary in-bounds offsets "
+                 "(old offset != new offset, different lengths, zero lengths) and TextDiff::iter_all_changes vs per-op iter_changes on "
+                 "real diffs and on arbitrary scripts; compared by TLC with Expansion!ExpectedChanges / ExpectedSlices; non-trivial = "
+                 "offsets and lengths differ between the sides", sample_keys=("ev", "old", "new", "op", "changes", "slices"))
+
+
+@prop("C06")
+def c06(out):
+    def nt(r):
+        if r["ev"] != "tokens":
+            return False
+        inp = r["input"]
+        return 13 in inp or not all(r["valid"]) or any(b >= 0xC2 for b in inp)
+    calls_family(out, "c06", {"lossless", "shape", "str_bytes_same", "panic"}, nt,
+                 "all six tokenizers x {str, [u8]} on every string of <=3 symbols (4 thorough) over the interesting-character alphabet, "
+                 "seeded random strings, and byte strings with invalid UTF-8 (0xFF, truncated 2/3/4-byte sequences, surrogate, overlong, "
+                 "stray continuation) in every context; TLC judges losslessness, non-emptiness and the token shape (Tokens.tla: own UTF-8 "
+                 "decoding and White_Space set) and str = bytes on valid UTF-8; non-trivial = input has a CR, a multi-byte or an invalid "
+                 "sequence", sample_keys=("kind", "mode", "input", "tokens"))
+
+
+@prop("C04")
+def c04(out):
+    def nt(r):
+        return r["ntok_old"] >= 2 and r["ntok_new"] >= 2 and any(c[0] != 0 for c in r["all"])
+    calls_family(out, "c04", {"recon_old", "recon_new", "index_shape", "index_seq", "iter_agree", "panic"}, nt,
+                 "TextDiff over 5 tokenizers x 3 algorithms x {str,[u8]} on all pairs of short strings over the interesting-character "
+                 "alphabet, mutated random texts (incl. invalid UTF-8 for bytes) and line texts; iter_all_changes and per-op iter_changes "
+                 "are recorded and TLC checks byte-exact reconstruction of both inputs, index shape and consecutive numbering "
+                 "(TextA!TextChangesViol); non-trivial = >=2 tokens per side and >=1 change",
+                 sample_keys=("alg", "kind", "mode", "old", "new", "all"))
+    out.level = "exploration"
+
+
+@prop("C14")
+def c14(out):
+    def nt(r):
+        if r["ev"] == "textops":
+            return max(r["ntok_old"], r["ntok_new"]) > 100 and r["text_ops"] != [] and any(o[0] != 0 for o in r["text_ops"])
+        if r["ev"] == "identify":
+            a = r["old"][r["os"]:r["oe"]]
+            b = r["new"][r["ns"]:r["ne"]]
+            return bool(set(a) & set(b)) and len(a) + len(b) > len(set(a) | set(b))
+        return False
+    calls_family(out, "c14", {"ops_differ", "algorithm", "newline_flag", "ranges", "ids", "panic"}, nt,
+                 "TextDiff::ops vs capture_diff_slices on the token slices (both recorded, compared by TLC: TextA!TextOpsViol) for all "
+                 "tokenizers x algorithms x newline_terminated override, small texts and texts with 90..135 tokens straddling the "
+                 "100-token switch to IdentifyDistinct; IdentifyDistinct::<u8|u16|u32|u64> on padded sequences with non-zero range "
+                 "starts incl. >=64 items with repeats: ids equal iff items equal within and across sides, ranges kept "
+                 "(TextA!IdentifyViol); non-trivial = a side has > 100 tokens and the diff has a change, resp. an item repeated across "
+                 "sides", sample_keys=("ev", "alg", "kind", "mode", "ntok_old", "ntok_new", "text_ops", "int", "old_ids", "new_ids"))
+
+
+@prop("C17")
+def c17(out):
+    def nt(r):
+        if r["ev"] == "remap":
+            return len(r["ops"]) >= 2 and any(b >= 0x80 for b in r["old"] + r["new"])
+        return r["ev"] == "helper" and len(r.get("result", [])) >= 2
+    calls_family(out, "c17", {"slice_tokens", "recon", "substring", "empty_slice", "panic"}, nt,
+                 "TextDiffRemapper::iter_slices for every op of text diffs (5 tokenizers x 3 algorithms x {str,[u8]}, multi-byte and "
+                 "invalid UTF-8) recorded with the byte offset of each returned slice in the original text, and the one-call helpers "
+                 "diff_chars/words/unicode_words/graphemes/lines/slices; TLC checks tags and bytes against the slice-wise token "
+                 "expansion, cumulative offsets, reconstruction of both texts, no empty slice, no panic (TextA!RemapViol/HelperViol); "
+                 "non-trivial = >=2 ops and a multi-byte token", sample_keys=("ev", "alg", "kind", "fn", "mode", "old", "new", "result"))
+    out.level = "exploration"
+
+
+@prop("C20")
+def c20(out):
+    def nt(r):
+        if r["ev"] != "determ":
+            return False
+        a, b = r["old"], r["new"]
+        u = [x for x in a if a.count(x) == 1 and b.count(x) == 1]
+        return len(u) >= 2 if r["alg"] == "patience" else len(a) > 1 and len(b) > 1
+    calls_family(out, "c20", {"determinism", "str_bytes_ops", "harness_relabel"}, nt,
+                 "each case = capture_diff_slices run on the calling thread, on two fresh threads (fresh RandomState keys) and on two "
+                 "order-preserving injective relabellings (fresh threads); TLC checks all op lists are equal and that each relabelling "
+                 "really preserves the equality and order pattern (TextA!DetermViol); plus str vs same bytes ops for line/word/char "
+                 "tokenizers; non-trivial = >=2 common unique items (Patience) / both sides longer than 1",
+                 sample_keys=("alg", "old", "new", "variants", "runs"))
+
+
 # --------------------------------------------------------------------------- setup / selftest / replay
 
 def setup():
